@@ -90,6 +90,55 @@ def build_unit(name):
             i += 1
             _emit_extracted(u, target, args, block, subst, emit)
             continue
+        if d == 'slice':
+            # expression slicing: copy named statements / call arguments of a real function verbatim (everything else of the
+            # function is dropped — the unit states which function the slice comes from; a missing statement is a lost anchor)
+            target = rest.split()[0]
+            args = _parse_args(rest[len(target):])
+            relpath, fname = target.split('::', 1)
+            ft = extract_fn(REPO, relpath, fname, impl=args.get('impl'), nth=int(args['nth']) if 'nth' in args else None)
+            subst_pairs = [x.split('=>') for x in args.get('subst', '').split('|') if '=>' in x]
+            body = ft.body
+            i += 1
+            emit(f'// ---- slice of {relpath}:{ft.start_line} `{fname}` sha={ft.sha}', ('marker', fname, ''))
+            while i < len(tl) and not re.match(r'\s*//@end\s*$', tl[i][0]):
+                ln = tl[i][0].strip()
+                i += 1
+                if not ln:
+                    continue
+                m2 = re.match(r'stmt\s+"(.*)"$', ln)
+                m3 = re.match(r'arg\s+(\w+)\s+(\d+)\s+"(.*)"$', ln)
+                if m2:
+                    pos = find_stmt(body, m2.group(1))
+                    if pos is None:
+                        raise ExtractError(f'lost anchor: statement `{m2.group(1)}` not found in {relpath}::{fname}')
+                    end = body.find(';', pos[0])
+                    text = body[pos[0]:end + 1]
+                elif m3:
+                    from rx import lex as _lex, match_close as _mc, split_top_commas as _sp, text_of as _to, next_code as _nc
+                    toks = _lex(body)
+                    text = None
+                    for k, t in enumerate(toks):
+                        if t.kind == 'id' and t.text == m3.group(1):
+                            o = _nc(toks, k)
+                            if o < len(toks) and toks[o].text == '(':
+                                c = _mc(toks, o)
+                                parts = _sp(toks[o + 1:c])
+                                ai = int(m3.group(2))
+                                if ai < len(parts):
+                                    text = m3.group(3).replace('{}', _to(parts[ai]).strip())
+                                break
+                    if text is None:
+                        raise ExtractError(f'lost anchor: call `{m3.group(1)}` argument {m3.group(2)} not found in {relpath}::{fname}')
+                else:
+                    raise ExtractError(f'bad slice line: {ln}')
+                for a_, b_ in subst_pairs:
+                    text = text.replace(a_, b_)
+                emit(text, ('real', fname, relpath))
+            i += 1
+            u.functions.append(dict(name=fname + '#slice', src_name=fname + ' (sliced statements)', path=relpath, line=ft.start_line, sha=ft.sha,
+                                    rules=['slice'], out_first=0, out_last=0, loops=0, item=True))
+            continue
         if d == 'extract_item':
             target = rest.split()[0]
             relpath, nm = target.split('::', 1)
@@ -164,6 +213,25 @@ def _emit_extracted(u, target, args, block, subst, emit):
             if k < 1 or k > len(loops):
                 raise ExtractError(f'{where}: lost anchor loop #{k} in {relpath}::{fname} (function has {len(loops)} loops)')
             loop_specs[k] = text
+        elif kind == 'before_tail':
+            # before the trailing expression of the body: after the last `;` / `}` at nesting depth 1
+            from rx import lex as _lex
+            toks = _lex(body)
+            depth = 0
+            last = None
+            for t in toks:
+                if t.kind == 'p':
+                    if t.text in '([{':
+                        depth += 1
+                    elif t.text in ')]}':
+                        depth -= 1
+                        if depth == 1 and t.text == '}':
+                            last = t.end
+                    elif t.text == ';' and depth == 1:
+                        last = t.end
+            if last is None:
+                last = 1
+            inserts.append((last, '\n' + text + '\n', 'before_tail'))
         elif kind == 'end_body':
             inserts.append((len(body) - 1, '\n' + text + '\n', 'end_body'))
         elif kind == 'expect_loops':
